@@ -66,8 +66,27 @@ template <size_t S, size_t Al> struct alignas(Al) Tracked
 struct Flavour
 {
     size_t esz = 0, cap = 0, align = 1;
-    char *zone = nullptr;
-    virtual ~Flavour() {}
+    char *zone = nullptr;                // the zone the pool is currently bound to
+    char *zones[2] = {nullptr, nullptr}; // flavours that can be re-initialised own two exactly-sized zones
+    int zi = 0;
+    virtual ~Flavour()
+    {
+        delete[] zones[0];
+        delete[] zones[1];
+    }
+    void make_zones()
+    {
+        for (int i = 0; i < 2; i++)
+        {
+            zones[i] = new char[esz * cap];
+            memset(zones[i], 0xEE, esz * cap);
+        }
+        zone = zones[zi = 0];
+    }
+    // re-initialisation of the SAME pool object: other=false on the zone it is bound to, other=true on the second zone.
+    // Afterwards every block handed out before is gone and the full capacity is available again.
+    virtual bool can_reinit() { return false; }
+    virtual void reinit(bool other) { (void)other; }
     virtual void *get(unsigned tag) = 0; // allocate (and construct with `tag`)
     virtual void put(void *p) = 0;       // (destroy and) free
     virtual struct pool_head *head() = 0; // the free list (anchors: pool.h:7-10)
@@ -83,12 +102,18 @@ struct CFlavour : Flavour
     {
         esz = e;
         cap = c;
-        zone = new char[e * c];
-        memset(zone, 0xEE, e * c);
+        make_zones();
         pool_init(&h);
         pool_engage(&h, zone, e * c, e);
     }
-    ~CFlavour() { delete[] zone; }
+    bool can_reinit() override { return true; }
+    void reinit(bool other) override
+    {
+        if (other)
+            zone = zones[zi ^= 1];
+        pool_init(&h);
+        pool_engage(&h, zone, esz * cap, esz);
+    }
     void *get(unsigned) override { return pool_alloc(&h); }
     void put(void *p) override { pool_free(&h, p); }
     struct pool_head *head() override { return &h; }
@@ -113,11 +138,16 @@ struct XFlavour : Flavour
     {
         esz = e;
         cap = c;
-        zone = new char[e * c];
-        memset(zone, 0xEE, e * c);
+        make_zones();
         p.init(zone, e * c, e);
     }
-    ~XFlavour() { delete[] zone; }
+    bool can_reinit() override { return true; }
+    void reinit(bool other) override
+    {
+        if (other)
+            zone = zones[zi ^= 1];
+        p.init(zone, esz * cap, esz);
+    }
     void *get(unsigned) override { return p.get(); }
     void put(void *q) override { p.put(q); }
     struct pool_head *head() override { return &p.head; }
@@ -217,7 +247,9 @@ struct PoolModel : mc::Model
 
     Reg reg;
 
-    PoolModel(const string &fl, vector<Conf> c, bool pn) : flav(fl), confs(std::move(c)), has_put_null(pn) {}
+    bool has_reinit; // the flavour can be initialised again (C API: pool_init + pool_engage; igris::pool::init)
+
+    PoolModel(const string &fl, vector<Conf> c, bool pn, bool ri) : flav(fl), confs(std::move(c)), has_put_null(pn), has_reinit(ri) {}
     ~PoolModel()
     {
         // objects still alive are not destroyed (the pool does not own them); the registry goes with the model
@@ -227,7 +259,9 @@ struct PoolModel : mc::Model
     }
 
     int nconf() { return (int)confs.size(); }
-    int nops() override { return nconf() + 1 + MAXCAP + (has_put_null ? 1 : 0); }
+    // op table: init[conf]... | get | put(cell 0..MAXCAP-1) | [put(NULL)] | [re-init same zone, re-init second zone]
+    int nops() override { return nconf() + 1 + MAXCAP + (has_put_null ? 1 : 0) + (has_reinit ? 2 : 0); }
+    const char *reinitname() { return flav == "c_pool" ? "pool_init+pool_engage" : "init"; }
     const char *getname() { return flav == "c_pool" ? "pool_alloc" : flav == "cxx_pool" ? "get" : "create"; }
     const char *putname() { return flav == "c_pool" ? "pool_free" : flav == "cxx_pool" ? "put" : "destroy"; }
     string opname(int o) override
@@ -240,7 +274,11 @@ struct PoolModel : mc::Model
         o -= 1;
         if (o < MAXCAP)
             return mc::fmt("%s(cell %d)", putname(), o);
-        return "put(NULL)";
+        o -= MAXCAP;
+        if (has_put_null && o == 0)
+            return "put(NULL)";
+        o -= has_put_null ? 1 : 0;
+        return mc::fmt("%s again on %s", reinitname(), o == 0 ? "the same zone" : "a second zone");
     }
 
     int nlive()
@@ -402,10 +440,27 @@ struct PoolModel : mc::Model
             }
             return after("put", o0);
         }
-        // put(NULL): documented no-op of igris::pool
-        mc::crash_context("C10.%s.put_null", flav.c_str());
-        f->put(nullptr);
-        return after("put_null", o0);
+        o -= MAXCAP;
+        if (has_put_null && o == 0)
+        {
+            // put(NULL): documented no-op of igris::pool
+            mc::crash_context("C10.%s.put_null", flav.c_str());
+            f->put(nullptr);
+            return after("put_null", o0);
+        }
+        o -= has_put_null ? 1 : 0;
+        // re-initialisation of the same pool object, with blocks out or not. The reference forgets every block handed
+        // out before (the harness never touches them again): the full capacity is available, in the bound zone.
+        if (!has_reinit || !f->can_reinit())
+            return false;
+        bool other = o == 1;
+        const char *cls = other ? "reinit_other_zone" : "reinit_same_zone";
+        mc::crash_context("C10.%s.%s", flav.c_str(), cls);
+        if (nlive() > 0)
+            mc::nontrivial(); // reset while blocks are out
+        f->reinit(other);
+        live_tag.assign(f->cap, -1);
+        return after(cls, o0);
     }
 
     bool after(const char *cls, int o)
@@ -455,7 +510,7 @@ struct PoolModel : mc::Model
         vector<int> ord;
         string why;
         bool ok = walk(ord, why);
-        string k = mc::fmt("%d|", conf) + ints(ord) + (ok ? "|" : "!|");
+        string k = mc::fmt("%d%c|", conf, 'A' + f->zi) + ints(ord) + (ok ? "|" : "!|");
         for (int t : live_tag)
             k += t >= 0 ? 'L' : 'f';
         // tags are state-derived but depend on the order of allocation: part of the reference state
@@ -487,14 +542,14 @@ MC_INIT
         for (size_t e : ES)
             for (int n = 1; n <= maxcap(); n++)
                 c.push_back(Conf{mc::fmt("elem %zu x %d", e, n), e, [e, n] { return (Flavour *)new CFlavour(e, n); }});
-        return std::unique_ptr<mc::Model>(new PoolModel("c_pool", c, false));
+        return std::unique_ptr<mc::Model>(new PoolModel("c_pool", c, false, true));
     });
     mc::add_bfs("cxx_pool", [] {
         vector<Conf> c;
         for (size_t e : ES)
             for (int n = 1; n <= maxcap(); n++)
                 c.push_back(Conf{mc::fmt("elem %zu x %d", e, n), e, [e, n] { return (Flavour *)new XFlavour(e, n); }});
-        return std::unique_ptr<mc::Model>(new PoolModel("cxx_pool", c, true));
+        return std::unique_ptr<mc::Model>(new PoolModel("cxx_pool", c, true, true));
     });
     mc::add_bfs("static_object_pool", [] {
         vector<Conf> c;
@@ -504,7 +559,7 @@ MC_INIT
         sconfs<Tracked<16, 8>>(c, "T(size 16, align 8)", mx);
         sconfs<Tracked<24, 8>>(c, "T(size 24, align 8)", mx);
         sconfs<Tracked<32, 16>>(c, "T(size 32, align 16)", mx); // over-aligned
-        return std::unique_ptr<mc::Model>(new PoolModel("static_object_pool", c, false));
+        return std::unique_ptr<mc::Model>(new PoolModel("static_object_pool", c, false, false) /* no reset in its API */);
     });
 }
 MC_MAIN
